@@ -11,8 +11,8 @@
 (*  (c) IDENTITY CATALOGUE  which identity applies to which operator, and the EXACT value of every        *)
 (*      bilinear form / functional on monomials (integer arithmetic over a common denominator).           *)
 (*                                                                                                        *)
-(* Used twice:  Gen (this module + Assembly_gen*.cfg): TLC enumerates every plan = (shape, dim, mesh      *)
-(* class, test space, trial space) with its complete job list and prints it (direction G);                *)
+(* Used twice:  Gen (this module + a generated gen_c16_*.cfg): TLC enumerates every plan = (shape, dim,  *)
+(* mesh class, test space, trial space) with its complete job list and prints it (direction G);           *)
 (* AssemblyCheck.tla: TLC judges what the real assemblers produced for these jobs (direction V).          *)
 EXTENDS Integers, Sequences, FiniteSets, TLC, Json
 
@@ -72,7 +72,8 @@ QSet(dim, k) == Exps(dim, k)
 Monos(s, shape, dim, class) ==
   CASE s = "lagrange1" -> IF shape = "hypercube" /\ class = "box" THEN QSet(dim, 1) ELSE PSet(dim, 1)
     [] s = "lagrange2" -> IF shape = "hypercube" /\ class = "box" THEN QSet(dim, 2) ELSE PSet(dim, 2)
-    [] s = "crrt"      -> PSet(dim, 1)
+    \* facet means of a linear function = its value at the facet barycentre, unless the facet is a non-planar bilinear face
+    [] s = "crrt"      -> IF class = "general" /\ shape = "hypercube" /\ dim = 3 THEN PSet(dim, 0) ELSE PSet(dim, 1)
     [] s = "disc0"     -> PSet(dim, 0)
     [] s = "disc1"     -> IF class = "general" /\ shape = "hypercube" THEN PSet(dim, 0) ELSE PSet(dim, 1)
 
@@ -259,6 +260,17 @@ BReqDeg(bop, shape, dim, class, T) ==
 \* pairs of routes that run the same evaluation order on one thread (any difference is a divergence, never rounding)
 BitPairs == {<<"classic", "domain">>, <<"burgers", "burgersjob">>}
 
+\* ---- gradient / divergence special assemblers (velocity space V = test, pressure space P = trial) ----------------------
+\* gpdv   = GradPresDivVeloAssembler::assemble(B, D, V, P, rule, scale_b, scale_d):  B (dim x 1 blocks, rows V, columns P),
+\*          D (1 x dim blocks, rows P, columns V);   B_m = scale_b * S_m,  D_m = scale_d * S_m^T   (GradDivAdjoint)
+\*          with S_m = the scalar matrix of testderiv(m) = int p d_m v on (test V, trial P)
+\* gradop = GradOperatorAssembler::assemble(G, test P, trial V, rule, scale):  G_m = scale * int d_m(u) q = scale * S_m^T
+GDPairs == {<<"lagrange2", "disc1">>, <<"crrt", "disc0">>}
+GDScales == <<<<-2, -2>>, <<4, -1>>>>        \* (scale_b, scale_d) as numerators over 2: the defaults (-1,-1) and (2,-1/2)
+GDJob(shape, dim, class, V, P, sl) ==
+  [k |-> "gd", deg |-> ReqDegMat(shape, dim, class, V, P, Op("testderiv", <<0>>)) + sl, scales |-> GDScales,
+   routes |-> <<"gpdv", "gradop">>, ref |-> "classic", blk |-> [m \in 1..dim |-> Op("testderiv", <<m - 1>>)]]
+
 \* vector routes: classic = LinearFunctionalAssembler::assemble_vector, domain = LinearFunctionalAssemblyJob,
 \* domainforce = ForceFunctionalAssemblyJob (force only)
 FuncsOf(dim) ==
@@ -322,6 +334,8 @@ MatJobs(shape, dim, class, T, R) ==
   {MatJob(op, shape, dim, class, T, R, sl) : op \in MatOps(shape, dim, class, T, R), sl \in 0..DegSlack}
 VecJobs(shape, dim, class, T) ==
   {VecJob(fn, shape, dim, class, T, sl) : fn \in FuncsOf(dim), sl \in 0..DegSlack}
+GDJobs(shape, dim, class, V, P) ==
+  IF <<V, P>> \in GDPairs THEN {GDJob(shape, dim, class, V, P, sl) : sl \in 0..DegSlack} ELSE {}
 BlkJob(bop, shape, dim, class, T, sl) ==
   [k |-> "blk", bop |-> bop, deg |-> BReqDeg(bop, shape, dim, class, T) + sl, alphas |-> Alphas,
    routes |-> SetToSeqA(BRoutes(bop, shape, T)), ref |-> BRef(bop), blocks |-> BlocksOf(bop, dim)]
@@ -340,6 +354,7 @@ Spec == Init /\ [][Next]_plan
 JobsOf(p) == SetToSeqA(MatJobs(p.shape, p.dim, p.class, p.test, p.trial))
              \o (IF p.test = p.trial THEN SetToSeqA(VecJobs(p.shape, p.dim, p.class, p.test)) ELSE << >>)
              \o (IF p.test = p.trial THEN SetToSeqA(BlkJobs(p.shape, p.dim, p.class, p.test)) ELSE << >>)
+             \o SetToSeqA(GDJobs(p.shape, p.dim, p.class, p.test, p.trial))
 
 Emit == PrintT(ToJson([plan |-> plan, jobs |-> JobsOf(plan)]))
 
